@@ -62,6 +62,12 @@ func (rm *ResponseManager) processRequests(p peer.ID, requests []gsmsg.GraphSync
 	defer messageSpan.End()
 
 	for _, request := range requests {
+		// responses are tracked by request ID; the ID of a response in progress
+		// for one peer means nothing when another peer uses it
+		if response, ok := rm.inProgressResponses[request.ID()]; ok && response.peer != p {
+			log.Warnf("ignoring %s request from %s for request ID %s in use by %s", request.Type(), p, request.ID().String(), response.peer)
+			continue
+		}
 		switch request.Type() {
 		case graphsync.RequestTypeCancel:
 			_ = rm.abortRequest(ctx, request.ID(), ipldutil.ContextCancelError{})
